@@ -109,7 +109,7 @@ def main(argv=None):
                 elif md in ('contract_only', 'external'): soft.append((name, f.owner, 'contract-only verification of the rewritten function failed: ' + f.ident()))
                 else: failures.append((name, f))
         for k_, why in r.fallback.items():
-            if pid in g.owner_props.get(k_, []) and r.modes.get(k_) == 'external':
+            if pid in g.relying_props(k_) and r.modes.get(k_) == 'external':
                 soft.append((name, k_, why))
         # a function on this property's path that the verifier reports as not verified, with no failure attributed to the property
         # through a clause label: report its failures under the function's own properties
@@ -132,7 +132,7 @@ def main(argv=None):
             failures = [(n_, f_) for (n_, f_) in failures if n_ != name]
             soft += [(name, f_.owner, 'the unit contains functions unknown to the overlay (%s); failed: %s' % (', '.join(unknown[:4]), f_.ident()[:120])) for (_, f_) in moved]
         for (own, msg) in r.rlimit:
-            if pid in g.owner_props.get(own, [pid]):
+            if pid in (g.relying_props(own) if own in g.owner_props else [pid]):
                 # the solver gave up on a function that verifies on the unchanged tree: undecided by the verifier; the bounded stand-in may still find a failing input
                 soft.append((name, own, 'resource limit exceeded while verifying %s (undecided by the verifier)' % own))
     for (k_, props_, why_) in pinned_changed:
